@@ -22,6 +22,26 @@ def h(term, ty, src, n, t, c, chunk_expr=None, tag=""):
                           extra_post=FIND_COVERS.format(n=n, last=t - 1))
 
 
+def bigchunk(n=1032, c=1030, m0=1026):
+    # NOT part of any tier: tried for the seeded change C02-a (poll period 1024); with the per-position arrays of the
+    # schedule model the symbolic executor needs > 28 GB / 30 min at n = 1032.  Kept for reference.
+    """One concrete run far outside the small bounds: a chunk of more than 1024 elements whose first match lies deep inside
+    it, held by the LAST worker, while the first worker holds the short second chunk with a later match.  Everything is
+    concrete (symbolic execution degenerates to interpretation); it exists because chunk-size-dependent behaviour (e.g. a
+    periodic poll of a shared flag) is invisible at n <= 5."""
+    body = f"    let mut a = [0u8; {n}];\n    a[{m0}] = 16;\n    a[{c}] = 16;\n"
+    body += f"    let mut tab = [1u8; model::MAXN];\n    let mut i = {c};\n    while i < {n} {{ tab[i] = 0; i += 1; }}\n"
+    body += f"    model::begin({n}, 2, Some(tab), 1);\n"
+    body += "    #[cfg(not(kani))]\n    model::set_base(a.as_ptr() as usize);\n"
+    body += (f"    let r = (&a[..]).into_par().num_threads(2).chunk_size({c}).map(move |x: &u8| {{ probe_ref!(x); *x }})"
+             f".find_with_index(move |x: &u8| {{ let r = *x == 16; if r {{ model::matched(); }} r }});\n")
+    body += f'    assert!(r == Some(({m0}, 16u8)), "find does not return the first match in source order (large chunk)");\n'
+    body += "    kani::cover!(true);\n"
+    return H("c02_bigchunk_find_with_index_M", body, {"terminal": "find_with_index", "type": "M", "src": "slice", "n": n, "threads": 2,
+                                                      "chunk": f"Exact({c})", "schedule": {"owners": "first chunk -> worker 1, second chunk -> worker 0"},
+                                                      "values": "concrete"}, unwind=n + 2, weight=100, timeout=(900, 2400), mem_gb=(16, 28))
+
+
 def harnesses(tier, seed):
     hs = []
     if tier == "quick":
